@@ -372,7 +372,9 @@ contract(FB, "RuleDBBase._get_specification_node", props=["C05"], aliases=AL, le
          raises=[("InvalidOperationError", "iterative_of(self) and smallest")],
          ensures=["wf(self.equivdb)",
                   # the finder matches the pack's mode and the caller's wish
-                  "implies(iterative_of(self), called_after('RuleDBBase._get_iterative_node', 'RuleDBBase._get_smallish_node'))"],
+                  "implies(iterative_of(self), called_after('RuleDBBase._get_iterative_node', 'RuleDBBase._get_smallish_node'))",
+                  # the 'smallest' option hands back a tree of the least size (carried from _get_smallest_node)
+                  "implies(smallest, not is_none(self._pruned_dict) and tsize(result) == " + _MINSELF + ")"],
          modifies=_NODE_MODS)
 contract(FB, "RuleDBBase.get_specification_rules", props=["C05", "C02"], aliases=AL, lenient=True,
          params={"self": Obj("RuleDBBase"), "minimization_time_limit": Float_, "smallest": Bool},
